@@ -43,13 +43,18 @@ func Preset(prop string, adversarial bool, r *scen.Rand) *Params {
 		p.RecordTasksP = 0.25
 		p.RecordCount = []int{1, 1, 2}
 		p.ManyCallsP = 0.2
-		p.ReplayP = 0.3
+		// some replays go through a Clean (sort / prune rewrite) first: "for all
+		// pre-existing well-formed contents of the snapshot file"
+		p.CleanP = 0.35
+		p.SortP = 0.7
+		p.ReplayP = 0.6
 	case "C02":
 		p.Alpha = Alpha{Plain: 5, Framing: 5, Structured: 2}
 		p.Envs = readOnlyEnv
 		p.UpdateOpt = 0.2
 		p.EditKinds = []string{"value"}
 		p.EditValueP = 0.6
+		p.TasksP = 0.15 // a mismatch must not pass silently under concurrency either
 		p.ReplayP = 0.3
 	case "C03":
 		p.Alpha = Alpha{Plain: 8, Framing: 1, Structured: 2}
@@ -73,6 +78,7 @@ func Preset(prop string, adversarial bool, r *scen.Rand) *Params {
 		p.EditKinds = []string{"value"}
 		p.EditValueP = 0.4
 		p.APIw = allAPIs(3, 2)
+		p.TasksP = 0.2 // updates from parallel tests must converge as well
 		p.ReplayP = 1
 	case "C05":
 		p.Alpha = Alpha{Plain: 9, Framing: 1, Structured: 1}
@@ -130,7 +136,7 @@ func Preset(prop string, adversarial bool, r *scen.Rand) *Params {
 	case "C09":
 		p.Alpha = Alpha{Plain: 10, Framing: 0, Structured: 1}
 		p.Envs = allEnvs
-		p.EditKinds = []string{"removecall", "removetest", "removesub", "skip"}
+		p.EditKinds = []string{"removecall", "removetest", "removesub", "skip", "addcall", "addtest"}
 		p.Counts = []int{1, 2, 3}
 		p.CleanP = 1
 		p.SortP = 0.5
@@ -143,7 +149,8 @@ func Preset(prop string, adversarial bool, r *scen.Rand) *Params {
 	case "C10":
 		p.Alpha = Alpha{Plain: 6, Framing: 4, Structured: 1}
 		p.Envs = []map[string]string{envOff, envClean, envUpd}
-		p.EditKinds = []string{"removecall", "removetest", "shuffle"}
+		p.EditKinds = []string{"removecall", "removetest", "shuffle", "skip"}
+		p.RunP = 0.25
 		p.RecordTasksP = 0.6
 		p.CleanP = 1
 		p.SortP = 0.7
